@@ -31,8 +31,9 @@ def mk_case(rng, kind, quick):
     tranks = outer + [order[-1]]
     mask = [1 if r in tranks else 0 for r in order]
     epl = rng.choice([1, 2, 4])
-    shape = 5
-    rows_r = gen_rows(rng, L, maxrows=rng.randint(3, 10))
+    wide = rng.random() < 0.3                 # positions and coordinates with two digits
+    shape = 16 if wide else 5
+    rows_r = gen_rows(rng, L, ncoords=14 if wide else 5, maxrows=rng.randint(3, 10), shape=shape)
     c = {"kind": kind, "order": order, "tranks": tranks, "mask": mask, "epl": epl, "shape": shape, "rows_r": rows_r, "rows_w": []}
     if kind == "buffet":
         ev = rng.choice(["root"] + order[:-1])
@@ -50,7 +51,7 @@ def mk_case(rng, kind, quick):
         if rng.random() < 0.5:
             # read-modify-write traffic: a write follows the read of the same iteration, to the same element or to the insertion staging area
             # (positions >= the shape; the shape is a multiple of every line size so that staging lines hold no regular element)
-            c["shape"] = shape = 8
+            c["shape"] = shape = 16 if wide else 8
             c["rows_w"] = [dict(r, w=1, pos=(r["pos"] if rng.random() < 0.7 else shape + rng.randint(0, 2))) for r in rows_r if rng.random() < 0.6]
             c["staged"] = 1 if c["rows_w"] else 0
         lines = [0, 0.5, 1, 1.5, 2, 3, 8]
@@ -61,12 +62,13 @@ def mk_case(rng, kind, quick):
 def mk_filter(rng):
     L = 2
     order = NAMES[-2:]
-    rows = gen_rows(rng, L, maxrows=8)
+    wide = rng.random() < 0.5          # coordinates with one and two digits (points are compared as numbers, not as CSV text)
+    rows = gen_rows(rng, L, ncoords=14 if wide else 5, maxrows=10 if wide else 8, shape=14 if wide else 5)
     forder = order + ["Z"]
     rows_f = []
     for r in rows:
         if rng.random() < 0.6:
-            for j, z in enumerate(sorted(rng.sample(range(4), rng.randint(1, 2)))):
+            for j, z in enumerate(sorted(rng.sample(range(13 if wide else 4), rng.randint(1, 2)))):
                 rows_f.append({"stamp": r["stamp"] + [j], "coords": r["coords"] + [z], "pos": z, "w": 0})
     return {"kind": "filter", "order": order, "forder": forder, "rows_r": rows, "rows_w": [], "rows_f": rows_f}
 
